@@ -136,6 +136,16 @@ h!(c14_data_operands, {
     std::mem::forget(out);
 });
 
+h!(c14_offset_in_byte_context, {
+    let (mut ctx, mut out, _kind, lines, _map) = state();
+    vsym!(w_off: u16);
+    let r = p_u_byte_num__offset(&mut ctx, &mut out, "", (0, w_off, 0));
+    let ok = match &r { Ok(v) => w_off <= 255 && *v as u16 == w_off, Err(_) => w_off > 255 };
+    vassert!("C14.offset.byte_context_range", ok);
+    vassert!("C14.offset.no_line_pushed", out.code.len() == lines);
+    forget3(ctx, out, r);
+});
+
 h!(c14_int_numbers, {
     let (mut ctx, mut out, _kind, lines, _map) = state();
     vsym!(w_n: u8);
@@ -210,6 +220,7 @@ pub const TABLE: &[(&str, fn())] = &[
     ("c14_call", c14_call),
     ("c14_jump_target", c14_jump_target),
     ("c14_data_operands", c14_data_operands),
+    ("c14_offset_in_byte_context", c14_offset_in_byte_context),
     ("c14_int_numbers", c14_int_numbers),
     ("c14_unsupported", c14_unsupported),
     ("c14_print_range", c14_print_range),
